@@ -222,23 +222,10 @@ Proof.
   - apply IHT. cbn [enc_ty] in Hx. apply andb_prop in Hx. apply Hx.
 Qed.
 
-(* without the valueless-CHOICE allowance the tag flag is irrelevant *)
-Lemma val_ofx_false_tg : forall T tg tg' v, val_ofx false tg T v = val_ofx false tg' T v.
-Proof.
-  intros T tg tg' v. destruct T; reflexivity.
-Qed.
-
 Lemma val_of_imp t x v : val_of (TImp t x) v = val_of x v.
-Proof. unfold val_of. cbn [val_ofx]. apply val_ofx_false_tg. Qed.
+Proof. reflexivity. Qed.
 Lemma val_of_exp t x v : val_of (TExp t x) v = val_of x v.
-Proof. unfold val_of. cbn [val_ofx]. apply val_ofx_false_tg. Qed.
-
-Lemma val_of_base : forall T v, val_of T v = val_of (base_of T) v.
-Proof.
-  induction T using ty_ind'; intros v; cbn [base_of]; try reflexivity.
-  - rewrite val_of_imp. apply IHT.
-  - rewrite val_of_exp. apply IHT.
-Qed.
+Proof. reflexivity. Qed.
 
 Lemma concrete_encoder_compat c T cd fl : concrete_encoder c T = Ok (cd, fl) -> ecompat (key_of T) cd = true.
 Proof.
@@ -522,7 +509,7 @@ Section Total.
   Lemma def_cmp t d x : def_ok t d = true -> val_of t x = true -> exists b, val_py_eq x d = Some b.
   Proof.
     unfold def_ok. rewrite (val_of_base t x), (val_of_base t d).
-    destruct (base_of t); try discriminate; unfold val_of; cbn [val_ofx];
+    destruct (base_of t); try discriminate; cbn [val_of];
       destruct x; try discriminate; destruct d; try discriminate; intros _ _; eexists; reflexivity.
   Qed.
 
@@ -631,14 +618,14 @@ Section Total.
       + apply (octets_like_total o (VChars cs) (concat cs) eq_refl Hn).
     - (* SEQUENCE *)
       destruct v as [| | | | | | | |vs| | |]; try discriminate Hv. rewrite enc_content_seq_c, csize_seq in *.
-      unfold val_of in Hv. rewrite val_ofx_seq in Hv.
+      rewrite val_of_seq in Hv.
       destruct (fields_total cd (rec_omit cd fl) o fs vs) as (parts & Ep & Hp); try assumption.
       { revert IH. apply Forall_impl. intros f Hf. apply Pc_Pw. exact Hf. }
       rewrite Ep. cbn [bind]. apply rec_finish_total; [|exact Hp].
       destruct cd; try discriminate Hk; auto.
     - (* SET *)
       destruct v as [| | | | | | | |vs| | |]; try discriminate Hv. rewrite enc_content_set_c, csize_set in *.
-      unfold val_of in Hv. rewrite val_ofx_set in Hv.
+      rewrite val_of_set in Hv.
       destruct (fields_total cd (rec_omit cd fl) o fs vs) as (parts & Ep & Hp); try assumption.
       { revert IH. apply Forall_impl. intros f Hf. apply Pc_Pw. exact Hf. }
       rewrite Ep. cbn [bind]. apply rec_finish_total; [|exact Hp].
@@ -656,8 +643,7 @@ Section Total.
     - (* CHOICE *)
       destruct v as [| | | | | | | | | |i x|]; try discriminate Hv. destruct cd; try discriminate Hk.
       rewrite enc_content_choice_c, csize_choice in *.
-      unfold val_of in Hv. cbn [val_ofx] in Hv. apply choice_go_inv in Hv.
-      destruct Hv as [(a & Hna & Hva)|(_ & He & _)]; [|discriminate He].
+      apply choice_go_inv in Hv. destruct Hv as (a & Hna & Hva).
       apply (alt_total o x Hr alts i a); try assumption.
       revert IH. apply Forall_impl. intros a0 Ha0. apply Pc_Pw. exact Ha0.
     - (* ANY *)
@@ -694,7 +680,7 @@ Qed.
 (* whatever a decoder accepts under a guiding type of the fragment - for EVERY input - is a
    well-formed value of that type which the same codec's encoder accepts *)
 Theorem accepted_is_reencodable : forall c fuel T b d tl,
-  frag_for c T = true -> enc_ty c T = true ->
+  frag T = true -> enc_ty c T = true ->
   decode_with c fuel (Some T) b = Ok (d, tl) ->
   exists v, d = DV T v /\ val_of T v = true
             /\ (reals_fit v = true -> N.of_nat (esize T v) < max_len -> exists b', encode c true 0 T v = Ok b').
@@ -706,7 +692,7 @@ Proof.
 Qed.
 
 Corollary accepted_is_reencodable_decode : forall c T b d tl,
-  frag_for c T = true -> enc_ty c T = true ->
+  frag T = true -> enc_ty c T = true ->
   decode c (Some T) b = Ok (d, tl) ->
   exists v, d = DV T v /\ val_of T v = true
             /\ (reals_fit v = true -> N.of_nat (esize T v) < max_len -> exists b', encode c true 0 T v = Ok b').
@@ -717,14 +703,14 @@ Print Assumptions accepted_is_reencodable.
 
 (* the hypotheses are satisfiable on inputs no encoder writes, and the conclusion is what evaluation gives *)
 Example accepted_is_reencodable_witness :
-  enc_ty BER awf_T = true /\ enc_ty DER awf_T = true /\ frag_for DER awf_T = true
+  enc_ty BER awf_T = true /\ enc_ty DER awf_T = true /\ frag awf_T = true
   /\ (let v := VRec [Some (VInt 5); Some (VChoice 0 (VBool true)); Some (VInt 7); Some (VChoice 0 VNull); Some (VList [VOcts [104; 105]])] in
       decode DER (Some awf_T) awf_der = Ok (DV awf_T v, [])
       /\ reals_fit v = true /\ N.ltb (N.of_nat (esize awf_T v)) max_len = true
       /\ encode DER true 0 awf_T v = Ok [48;19; 2;1;5; 160;3;1;1;255; 129;1;7; 5;0; 49;4;12;2;104;105])
   /\ (let T := TSeq [(Req, TInt); (Opt, TChoice [TNull; TImp (awf_ctx 5) TOid]); (Req, TSetOf TReal)] in
       let v := VRec [Some (VInt 5); Some (VChoice 1 (VOid [1; 2; 3])); Some (VList [VReal (RBin 5 (-1)); VReal RPInf])] in
-      frag_for BER T = true /\ enc_ty BER T = true
+      frag T = true /\ enc_ty BER T = true
       /\ decode BER (Some T) [48;128; 2;3;0;0;5; 133;2;42;3; 49;129;8; 9;3;128;255;5; 9;1;64; 0;0] = Ok (DV T v, [])
       /\ reals_fit v = true /\ N.ltb (N.of_nat (esize T v)) max_len = true
       /\ encode BER true 0 T v = Ok [48;17; 2;1;5; 133;2;42;3; 49;8; 9;3;128;255;5; 9;1;64]).
@@ -734,7 +720,7 @@ Proof. repeat split; vm_compute; reflexivity. Qed.
 Example accepted_is_reencodable_witness_cer :
   let T := TSeq [(Req, TOcts); (Opt, TBits); (Req, TSetOf TInt)] in
   let v := VRec [Some (VOcts [1;2;3;4;5]); Some (VBits [true;false;true;true]); Some (VList [VInt 9; VInt 3])] in
-  frag_for CER T = true /\ enc_ty CER T = true
+  frag T = true /\ enc_ty CER T = true
   /\ decode CER (Some T) [48;128; 36;128; 4;2;1;2; 4;3;3;4;5; 0;0; 3;2;4;176; 49;128; 2;1;9; 2;1;3; 0;0; 0;0] = Ok (DV T v, [])
   /\ reals_fit v = true /\ N.ltb (N.of_nat (esize T v)) max_len = true
   /\ encode CER true 0 T v = Ok [48;128; 4;5;1;2;3;4;5; 3;2;4;176; 49;128; 2;1;3; 2;1;9; 0;0; 0;0]
@@ -765,8 +751,8 @@ Example real_exponent_accepted_not_reencodable :
   end.
 Proof. vm_compute. repeat split; reflexivity. Qed.
 
-(* R3. the valueless tagged CHOICE of [valueless_tagged_choice_accepted] (Proofs/AcceptedWellFormed.v)
-   is refused as well: a0 80 00 00 decodes, the result cannot be encoded *)
+(* R3 (repaired): the valueless tagged CHOICE, which the encoder refuses, is no longer produced by any
+   decoder: see [valueless_tagged_choice_refused] in Proofs/AcceptedWellFormed.v *)
 
 (* R4. outside [enc_ty] by the model's choice, not a refusal of the library: a DEFAULT of type REAL
    (or of a constructed type) is compared by float / object equality, which the model declines *)
